@@ -22,6 +22,11 @@
     distinct, so "exactly once"; [C14_file_names_distinct] / [C14_file_of_a_module_unique]: file
     names are pairwise distinct when no path segment contains '/' (necessary:
     [FilesWhole.out_path_not_injective]); [C14_files_whole_any_permutation_schedule].
+    [C14_extern_accessors_exactly_once] (EmitExternOnce.v): for every module of an accepted build
+    the [get_*] functions of its file are a contiguous block right before the epilogue and read
+    back, with multiplicity and in name order, exactly as the accessors of the module's declared
+    extern values (name, visibility, last address, type bound by the scoping rules); nothing else
+    in the file is a [get_*] function ([C14_extern_accessors_no_other]).
     What the model cannot exhibit (glob, directories, the actual writes) is covered by running the
     real [pyxis::build] into a fresh directory and listing it. *)
 From Coq Require Import List NArith ZArith Bool String Permutation.
@@ -29,6 +34,8 @@ From PyxisModel Require Import Base Sexp Grammar SemTypes Registry Sem SemLemmas
 Import ListNotations.
 
 From PyxisModel Require EmitReaders EmitFinal FilesInput FilesRead FilesWhole.
+
+From PyxisModel Require EmitAccessors EmitExternOnce.
 
 Theorem C14_one_file_per_module : forall st files,
   write_all st = Ok files ->
@@ -146,3 +153,38 @@ Theorem C14_file_of_a_module_unique :
     In (k, gm) mods -> k <> [] -> In (out_path k, f) files -> FilesWhole.file_ok gm f.
 Proof. exact FilesWhole.files_unique. Qed.
 Print Assumptions C14_file_of_a_module_unique.
+
+Theorem C14_extern_accessors_exactly_once :
+  forall (order : schedule) (ptr : N) (mods : list (path * gmodule)) (st0 st : sstate)
+      (files : list (string * sexp)),
+    WholeBuild.input_state ptr mods = Ok st0 ->
+    NoDup (map fst mods) ->
+    WholeBuild.collision_free (st_reg st0) ->
+    EmitFinal.keeps_work order ->
+    pyxis_resolve order ptr mods = BOk st ->
+    write_all st = Ok files ->
+    exists fs : list (path * sexp),
+      Permutation files (map FilesRead.file_of fs) /\
+      map fst fs = filter FilesInput.nonroot (map fst mods) /\
+      (forall (k : path) (gm : gmodule) (f : sexp),
+       In (k, gm) mods ->
+       In (k, f) fs -> FilesWhole.file_ok gm f /\ EmitExternOnce.extern_file_ok (st_reg st) k gm f).
+Proof. exact EmitExternOnce.extern_accessors_whole. Qed.
+Print Assumptions C14_extern_accessors_exactly_once.
+
+Theorem C14_extern_accessors_no_other :
+  forall (order : schedule) (ptr : N) (mods : list (path * gmodule)) (st0 st : sstate)
+      (files : list (string * sexp)) (name : string) (f : sexp),
+    WholeBuild.input_state ptr mods = Ok st0 ->
+    NoDup (map fst mods) ->
+    WholeBuild.collision_free (st_reg st0) ->
+    EmitFinal.keeps_work order ->
+    pyxis_resolve order ptr mods = BOk st ->
+    write_all st = Ok files ->
+    In (name, f) files ->
+    exists (k : path) (gm : gmodule),
+      In (k, gm) mods /\
+      k <> [] /\
+      name = out_path k /\ FilesWhole.file_ok gm f /\ EmitExternOnce.extern_file_ok (st_reg st) k gm f.
+Proof. exact EmitExternOnce.extern_accessors_no_other. Qed.
+Print Assumptions C14_extern_accessors_no_other.
